@@ -142,3 +142,31 @@ func VH_C05_vm() {
 	vAssert(ok, "integer-result")
 	vAssert(int64(got) == pr.fixed+d, "script-die-is-its-own-draw-plus-1")
 }
+
+func init() {
+	vHarnesses["VH_C05_pool"] = VH_C05_pool
+}
+
+//vh:prop=C05 tiers=quick,thorough unwind=8 solver=z3-new/int portfolio=cvc5/int,z3/bv budget_s=900 bounds="pools of 2..3 dice through RollCommon with the REAL sampler: side count a 64-bit symbol in [2, 2^40], every generator output a fresh symbol: at least one draw per die, and when no draw was rejected (all below A(n), exactly one per die) die i is exactly draw i mod n + 1 - successive dice are separate draws, not digits of one"
+func VH_C05_pool() {
+	src := &rand.PCGSource{}
+	times := 2 + vChoice("times", 2)
+	n := vInt64("n")
+	vAssume(n >= 2)
+	vAssume(n <= 1<<40)
+	_, text := RollCommon(src, IntType(times), IntType(n), nil, nil, 0, 0, 0, 0)
+	vReach("rolled")
+	k := vDrawCount()
+	vAssert(k >= times, "one-draw-per-die-at-least")
+	vAssert(vDrawsFrom(src) == k, "draws-from-given-source")
+	shown := vStrInts(text)
+	vAssert(len(shown) == times, "every-die-shown")
+	if k != times || len(shown) != times {
+		return // a draw was rejected and redrawn: covered by VH_C05_sampler per die
+	}
+	A := vC05Bound(uint64(n))
+	for i := 0; i < times; i++ {
+		d := vDraw(i)
+		vAssert(vImplies(d < A, uint64(shown[i]) == d%uint64(n)+1), "die-i-is-its-own-draw-mod-n-plus-1")
+	}
+}
